@@ -190,6 +190,11 @@ void one(int sel, const std::string& content, const char* tag)
       vfz::count("excluded_known.rat-denominator-unchecked");
       return;
    }
+   if(!parsedAsMps && vfz::known("lpf-keyword-bracket-overread") && vfz::hasClosingBracket(text))
+   {
+      vfz::count("excluded_known.lpf-keyword-bracket-overread");
+      return;
+   }
    if(!parsedAsMps && noNames && vfz::known("lpf-noname-leak"))
    {
       // known finding: readLPF frees its private NameSets without running their destructors
